@@ -315,6 +315,12 @@ where
         // make sure the remainder polynomial is the one the prover committed to; its commitment
         // is the last of the FRI layer commitments
         let remainder_commitment = <H as ElementHasher>::hash_elements(&remainder_poly);
+        #[cfg(winterfell_verif)]
+        let remainder_commitment = if utils::verif::skip(utils::verif::SKIP_FRI_REMAINDER_CHECK) {
+            *self.layer_commitments.last().unwrap_or(&remainder_commitment)
+        } else {
+            remainder_commitment
+        };
         if self.layer_commitments.last() != Some(&remainder_commitment) {
             return Err(VerifierError::RemainderCommitmentMismatch);
         }
